@@ -38,7 +38,7 @@ VALUE_CLASSES = {
     "zero": [0.0, 0, 1.5],      # a value is a value: zero of either kind next to an ordinary one (forms that divide by it are out of domain)
 }
 NAMESETS = [("a", "b"), ("alpha", "a"), ("x1", "e")]
-NAMESETS_T = [("p0", "p1"), ("p", "pp"), ("n", "x"), ("B", "i")]   # incl. names that collide with declared variables, arrays and loop variables
+NAMESETS_T = [("p0", "p1"), ("p", "pp"), ("n", "x"), ("B", "i"), ("q2_0", "q1x"), ("q0_phase", "pix"), ("sqrt2", "q10n")]   # incl. names that collide with declared variables, arrays and loop variables
 # names that mean something to the host language or to SymPy (all are plain NAME tokens of the grammar)
 NAMESETS_HOST = [("lambda", "beta"), ("gamma", "E"), ("I", "S"), ("N", "Q"), ("re", "im"), ("None", "is"), ("oo", "zoo"), ("if", "not"), ("def", "O"), ("values", "kwargs"), ("prog", "v"), ("self", "a"), ("as", "or")]
 
